@@ -29,8 +29,11 @@ def check_case(case, ctx=None):
     from genjax import ChoiceMapBuilder as C
 
     node, gf, sg, jargs, nargs, key = gfi.setup(case)
-    paths = [p for p, _ in gfi.all_paths(node)]
-    traceable = {gfi.static_part(p) for p in paths}
+    # Addresses below a mask whose flag is the Python constant False are neither asserted traceable nor
+    # untraceable: the zero trace of that execution has no choices there, other flag values would.
+    amb = _ambiguous_prefixes(node, case["args"], case.get("flag_repr", "arr"))
+    paths = [p for p, _ in gfi.all_paths(node) if not any(gfi.static_part(p)[: len(a)] == a for a in amb)]
+    traceable = {gfi.static_part(p) for p, _ in gfi.all_paths(node)}
     n_at = {}  # static prefix -> vector length (to give index-dropped values the right shape)
     vals = case["vals"]
     entries = []  # (address components for the builder, value, is_valid, model path)
@@ -104,6 +107,32 @@ def check_case(case, ctx=None):
         sp = gfi.static_part(mp)
         if not res.filter(S.at[sp] if len(sp) > 1 else S.at[sp[0]]).static_is_empty():
             raise Violation("invalid_subset:extra", f"traceable address {mp} is in the returned map", case)
+
+
+def _ambiguous_prefixes(node, args, flag_repr, path=()):
+    """static prefixes of mask calls whose flag is concretely (Python) False"""
+    k = node["k"]
+    out = []
+    if k == "static":
+        for st_ in node["stmts"]:
+            a = st_["addr"]
+            sub = path + ((a,) if isinstance(a, str) else tuple(a))
+            cal = st_["callee"]
+            if cal["k"] == "mask" and st_["args"][0][0] == "bconst" and st_["args"][0][1] is False and st_["args"][0][2] == "py":
+                out.append(sub)
+            out += _ambiguous_prefixes(cal, None, flag_repr, sub)
+    elif k == "mask":
+        if args is not None and flag_repr == "py" and args[0] is False:
+            out.append(path)
+        out += _ambiguous_prefixes(node["g"], None, flag_repr, path)
+    elif k in ("switch", "mix"):
+        for b in node["bs"]:
+            out += _ambiguous_prefixes(b, None, flag_repr, path + (("component_sample",) if k == "mix" else ()))
+    elif k == "or_else":
+        out += _ambiguous_prefixes(node["a"], None, flag_repr, path) + _ambiguous_prefixes(node["b"], None, flag_repr, path)
+    elif "g" in node:
+        out += _ambiguous_prefixes(node["g"], None, flag_repr, path)
+    return out
 
 
 def _length_at(node, path):
